@@ -2,9 +2,8 @@
     Model/M_C19.v was written against.  GENERATED ONCE by a script, then frozen by hand: every lemma is
     `reflexivity` between the regenerated table and the literal copied here, so any change of a key, a
     value expression, a default, an argument order or a statement in a to_dict / from_dict / __init__ of an
-    anchored class makes this file stop compiling (fail closed).  Every site is pinned in its current (repaired) form; should a site be reopened, both texts
-    can be accepted again through the regenerated k_flag definitions.
-    *)
+    anchored class makes this file stop compiling (fail closed).  Every site is pinned in its current (repaired)
+    form; should a site be reopened, both texts can be accepted again through the regenerated k_flag definitions. *)
 From Coq Require Import List String Bool.
 From OV Require Import Gen.C19Codec Model.M_C19.
 Import ListNotations.
@@ -408,7 +407,7 @@ Proof. reflexivity. Qed.
 Lemma pin_PolynomialGeometry_init : k_codec_PolynomialGeometry_init =
    [("<args>"%string, "self, coordinate_system, radius, conic=0.0, tol=1e-10, max_iter=100, coefficients=[]"%string);
     ("<stmt>"%string, "super().__init__(coordinate_system, radius, conic, tol, max_iter)"%string);
-    ("<stmt>"%string, "self.c = np.atleast_2d(coefficients)"%string);
+    ("<stmt>"%string, "self.c = np.atleast_2d(np.asarray(coefficients, dtype=float))"%string);
     ("<stmt>"%string, "self.is_symmetric = False"%string);
     ("<if>"%string, "len(self.c) == 0"%string);
     ("<stmt>"%string, "  self.c = np.zeros((1, 1))"%string);
@@ -449,7 +448,7 @@ Proof. reflexivity. Qed.
 Lemma pin_ChebyshevGeometry_init : k_codec_ChebyshevGeometry_init =
    [("<args>"%string, "self, coordinate_system, radius, conic=0.0, tol=1e-10, max_iter=100, coefficients=[], norm_x=1, norm_y=1"%string);
     ("<stmt>"%string, "super().__init__(coordinate_system, radius, conic, tol, max_iter)"%string);
-    ("<stmt>"%string, "self.c = np.atleast_2d(coefficients)"%string);
+    ("<stmt>"%string, "self.c = np.atleast_2d(np.asarray(coefficients, dtype=float))"%string);
     ("<stmt>"%string, "self.norm_x = norm_x"%string);
     ("<stmt>"%string, "self.norm_y = norm_y"%string);
     ("<stmt>"%string, "self.is_symmetric = False"%string)].
